@@ -88,6 +88,9 @@ def gen(rng, tier):
     attempts = [gen_payload(rng) for _ in range(rng.randrange(2, 7))]
     app = []
     npeers = rng.randrange(2, 4)
+    # application clients on the long-polling transport; they may start a
+    # websocket upgrade and abandon it
+    cfg['polling'] = [p for p in range(npeers) if rng.random() < 0.3]
 
     def beh():
         # what the application's connect handler does
@@ -137,6 +140,9 @@ def gen(rng, tier):
             app.append(['sdisc', p, ns])
         else:
             app.append(['connect', p, ns, beh()])
+        if cfg['polling'] and rng.random() < 0.15:
+            app.append(['upgrade_abort', rng.choice(cfg['polling']),
+                        rng.choice(['none', 'probe'])])
     return {'cfg': cfg, 'attempts': attempts, 'app': app}
 
 
@@ -383,10 +389,13 @@ def _run_twin(case, cfg, instrumented, w):
         if k == 'connect':
             p, ns = op[1], op[2]
             b = op[3] if len(op) > 3 else 'accept'
+            polling = p in cfg.get('polling', ())
             if p not in sc.peers or not sc.alive(p):
-                sc.open(p)
+                sc.open(p, transport='polling' if polling else 'websocket')
             if sc.sid(p, ns):
                 continue
+            if polling and b == 'pause_sever':
+                b = 'accept'
             pending_beh[ns] = b
             if b == 'pause_sever' and (w.mode == 'thread' or coroutine):
                 # the transport is lost while the connect handler runs
@@ -410,6 +419,18 @@ def _run_twin(case, cfg, instrumented, w):
             if sid:
                 w.api('s', 'enter_room' if k == 'enter' else 'leave_room',
                       sid, room, namespace=ns)
+        elif k == 'upgrade_abort':
+            _, p, stage = op
+            if p in sc.peers and sc.alive(p) and \
+                    getattr(sc.peers[p], 'transport', '') == 'polling':
+                if w.mode == 'async':
+                    # (engine.io 4.14's asyncio socket never leaves its
+                    # 'upgrading' state when the websocket goes before the
+                    # probe - inside the trusted dependency, E5)
+                    stage = 'probe'
+                sc.peers[p].upgrade_abort(stage)
+                w.settle()
+                w.advance(0.1)
         elif k == 'close':
             w.api('s', 'close_room', op[2], namespace=op[1])
         elif k == 'leave_ghost':
